@@ -190,10 +190,10 @@ def k7_calls(isa, t, tier, rng, half=None):
     if not isc:
         for i, n in enumerate(res):
             r3.append("g_reduce_view<%s,%d>();" % (t, n))
-            if full or i % 2 == 0:
+            if full or i % 2 == 0 or len(res) == 1:
                 r3.append("g_randview<%s,%d>();" % (t, n))
                 r3.append("g_layout_map<%s,%d,%d>();" % (t, 1 + i % 3, n))
-            if full or i % 2 == 1:
+            if full or i % 2 == 1 or len(res) == 1:
                 r3.append("g_filterview<%s,%d>();" % (t, n))
                 r3.append("g_randview2d<%s,%d,%d>();" % (t, 2 + i % 2, n))
         if isf:
@@ -391,19 +391,19 @@ def run(tier, seed):
             "Model/Expr (C02)": ["assign_reads_in_operands", "assign_reads_cover"],
             "Model/Einsum (C03)": ["einsum_reads_in_operands"],
             "Model/ViewWrite (C05)": ["view1d_footprint", "view2d_footprint"],
-            "Model/Views (C04)": ["views_read_footprint", "views_gather_footprint"],
+            "Model/Views (C04)": ["views_read_footprint", "views_gather_footprint", "views_teval_footprint", "views_teval_gather_footprint", "views_eval2_footprint", "views_consumer_footprint"],
             "Model/Reduce (C16)": ["reduce_footprint"],
             "Model/RandomViews (C19)": ["random_view_footprint"],
-            "Model/Layout (C20)": ["layout_footprint"],
-            "Model/Transpose, Model/Permute (C14)": ["transpose_footprint", "permute_writes_in_result"],
+            "Model/Layout, Model/MapAlias (C20)": ["layout_footprint", "map_reshape_footprint", "map_flatten_squeeze_footprint"],
+            "Model/Transpose, Model/Permute (C14)": ["transpose_footprint", "permute_writes_in_result", "permute_reads_in_operand"],
             "Model/Inverse (C10)": ["inverse_leaf_reads_in_operand"],
             "Model/Kern3 (C07)": ["transpose33_footprint", "matmul333_footprint", "matmul3K3_footprint", "matvec331_footprint", "small_kernels_footprint",
                                   "whole_vector_kernels_footprint", "dyadic_footprint"],
             "Model/Footprint (C07)": ["load3_lanes", "store3_lanes", "maskLoop_mem", "maskAvx_eq_maskLoop", "arrayToMask_testBit", "kmask_eq_maskLoop",
                                       "member_mask_fallback_lanes", "remainderMask_lanes", "masked_tail_in_extent", "aligned_only_on_owned",
                                       "flagged_accesses_in_extent", "bounds_check_sound", "bounds_check_complete", "memIndex_sound"],
-            "not covered": "Model/LU, Solve, QR, MapAlias and the non-leaf part of Inverse are entry-function models (Mat = Nat -> Nat -> a) without offsets: "
-                           "no footprint statement can be made about them beyond locality; the read side of permute is not proved; their operations are covered by K7 "
+            "not covered": "Model/LU, Solve, QR and the non-leaf part of Inverse are entry-function models (Mat = Nat -> Nat -> a) without offsets: "
+                           "no footprint statement can be made about them beyond locality; the alias-event part of MapAlias has no offsets either; their operations are covered by K7 "
                            "(lu_map, qr_map, solve_map, inverse_map, layout_map, permute_map)"},
         "observed_not_proved": ["no fault", "no stray write", "inputs unchanged", "placement independence", "no allocation", "sanitizers (thorough)"],
     })
